@@ -11,6 +11,30 @@ TB = ("Trusted: Lean 4.33 kernel; axioms ⊆ {propext, Classical.choice, Quot.so
       "(constants/tables regenerated from /repo) and the differential correspondence stream; ")
 
 NOTES = {
+    "C06": {
+        "text": "Kernel-checked for any PDA function and fetcher: de_escalate yields a non-signer that is writable iff the resolved meta is writable and the key is absent from or writable somewhere in the "
+                "instruction; both helpers leave the pre-existing metas as an untouched prefix and append exactly one de-escalated meta per stored config, so every appended meta is non-signer, writable only "
+                "if configured writable, read-only if present only read-only, and writable if configured writable and absent / already writable.",
+        "design_ref": "§5 C06",
+        "note": TB + "resolution flags are the PodBool bytes of the stored config (any non-zero byte = true).",
+        "technique": "Lean 4 theorem (all instructions / stored lists, parametric in PDA function and fetcher) + differential correspondence with clause oracle",
+    },
+    "C07": {
+        "text": "Kernel-checked iff: check_account_infos succeeds exactly when the stored bytes read as a config list no longer than the provided list and every config, resolved against the whole provided "
+                "list, equals (key, signer, writable) of the account at the corresponding trailing position; it never panics (short lists, malformed data, unresolvable configs give errors); each kind of "
+                "deviation is a corollary.",
+        "design_ref": "§5 C07",
+        "note": TB + "account data borrows always succeed in the model (no outstanding RefCell borrows).",
+        "technique": "Lean 4 iff-theorem + totality (kernel-checked, parametric in the PDA function) + differential correspondence over single-field mutants",
+    },
+    "C08": {
+        "text": "Kernel-checked under the property's precondition (infos mirror the metas; fetcher returns the infos' data): CPI success implies off-chain success with identical metas; off-chain success with a "
+                "pool holding every appended key implies CPI success with identical metas; hence both fail together; appended infos are in lockstep with the appended metas (same keys, taken from the pool); "
+                "pools in any order give identical metas and info keys.",
+        "design_ref": "§5 C08",
+        "note": TB + "the only admissible divergence is the CPI helper failing because the pool lacks an info for a resolved key.",
+        "technique": "Lean 4 simulation proof between the two resolution loops (kernel-checked) + differential correspondence running both helpers on the same scenarios",
+    },
     "C05": {
         "text": "Kernel-checked for every 35-byte config (all 256 kind bytes, any 32 config bytes, any flag bytes), all instruction data and account lists, and *any* PDA function: kind 0 resolves to the "
                 "stored key; kinds 1 / >=128 resolve exactly to pda(materialised seeds, executing or indexed program) with each seed kind's range checks spelled out (iff); kind 2 to the 32 bytes at the "
